@@ -4,9 +4,9 @@
 D="$1"; NAME=$(basename "$D")
 WT=/tmp/wt-verify
 [ -d $WT ] || git -C /repo worktree add -q --detach $WT HEAD
-cd $WT && git checkout -q --detach $(git -C /repo rev-parse HEAD) && git checkout -q -- . && git clean -fdq -e target
+cd $WT && git reset -q --hard && git checkout -q --detach $(git -C /repo rev-parse HEAD) && git clean -fdq -e target
 if ! git apply --check "$D/patch.diff" 2>/dev/null; then
-  if git apply --3way "$D/patch.diff" 2>/dev/null; then echo "$NAME: applied with 3way"; else echo "$NAME: PATCH DOES NOT APPLY"; exit 1; fi
+  if git apply --3way "$D/patch.diff" 2>/dev/null; then echo "$NAME: applied with 3way"; else git reset -q --hard; echo "$NAME: PATCH DOES NOT APPLY"; exit 1; fi
 else git apply "$D/patch.diff"; fi
 export CARGO_NET_OFFLINE=true
 SUITE=$(cargo test --workspace --no-fail-fast --offline 2>&1 | grep -E "^test result" | awk '{p+=$4; f+=$6} END {print "passed=" p " failed=" f}')
